@@ -157,7 +157,7 @@ class Check:
                   "table": ("src/paulie/common/two_local_generators.py", "TableGen.v", "TableRefine.v", "Model/Families.v"),
                   "linear": ("src/paulie/common/pauli_string_linear.py", "LinGen.v", "LinRefine.v", "Model/Linear.v"),
                   "numpy": ("src/paulie/application/matrix_decomposition.py (_pauli_ord, _mat_to_vec, matrix_decomposition, matrix_decomposition_diagonal: index arrays, gather, in-place butterflies) and average_pauli_weight.py (get_pauli_weights)", "NumpyGen.v", "NumpyRefine.v", "Model/Decomp.v (vec, bfly_iter, dbfly_iter, decompose, decompose_diag, pauli_weights)"),
-                  "queue": ("src/paulie/classifier/morph_factory.py (MorphFactory._get_anti_commutates, _get_max_connected, _append_to_queue, _get_queue: the order in which a component is fed to the pipeline; check_dependency_one_leg, get_one_vertices, _gen_one_legs, get_vertices, is_empty_legs: the dependency test of append_to_center; find, append, remove, replace, get_center, append_to_center: the primitive edits of the graph; get_lits, lit, get_pq: the look-ups of the steps)", "QueueGen.v", "QueueRefine.v", "Model/Collection.v (sort_strs, remove1, find, insert_at), Model/Pauli.v (commutes_code)"),
+                  "queue": ("src/paulie/classifier/morph_factory.py (MorphFactory._get_anti_commutates, _get_max_connected, _append_to_queue, _get_queue: the order in which a component is fed to the pipeline; check_dependency_one_leg, get_one_vertices, _gen_one_legs, get_vertices, is_empty_legs: the dependency test of append_to_center; find, append, remove, replace, get_center, append_to_center: the primitive edits of the graph; get_lits, lit, get_pq: the look-ups of the steps; append_delayed, restore_delayed)", "QueueGen.v", "QueueRefine.v", "Model/Collection.v (sort_strs, remove1, find, insert_at), Model/Pauli.v (commutes_code)"),
                   "factory": ("src/paulie/common/pauli_string_factory.py (gen_k_local, gen_k_local_generators, class Used)", "FactoryGen.v", "FactoryRefine.v", "Model/Parser.v (k_local, k_local_generators)"),
                   "search": ("src/paulie/application/pauli_compiler.py (compile_target, OptimalPauliCompiler.compile, _case3_best_reordering, _bfs_case3, _nested_commutator_result, _sequence_to_paulie_orientation)", "SearchGen.v", "SearchRefine.v", "Model/Compiler.v (nested_eval)"),
                   "optimiser": ("src/paulie/common/pauli_string_collection.py (find_generators_with_connection, list_connections, _get_delta)", "OptGen.v", "OptRefine.v", "Model/Optimise.v"),
